@@ -962,6 +962,10 @@ class Engine:
                             out.extend(self.store_back(tgt.value, nl, t, tgt))
                         if f is not None:
                             out.append((f, ("raise", Raised("IndexError"))))
+                    elif isinstance(cont, VTuple) and cont.is_list and isinstance(key, VPy) and isinstance(key.obj, int) and 0 <= key.obj < len(cont.items):
+                        items = list(cont.items)
+                        items[key.obj] = v
+                        out.extend(self.store_back(tgt.value, VTuple(items, is_list=True), s2, tgt))
                     else:
                         raise Unsupported("subscript store on %s" % type(cont).__name__, tgt)
             return out
@@ -1382,7 +1386,8 @@ class Engine:
                 return VPy(f(a.obj, b.obj))
         if isinstance(a, VStr) and isinstance(b, VStr) and isinstance(op, ast.Add):
             return VStr(a.s + b.s)
-        if isinstance(op, ast.Add) and (isinstance(a, (VStr,)) or isinstance(b, (VStr,)) or (isinstance(a, VScalar) and a.ty.kind in ("atom", "opaque") and a.z.sort() == self.S.Atom)):
+        if isinstance(op, ast.Add) and (isinstance(a, (VStr,)) or isinstance(b, (VStr,)) or (isinstance(a, VScalar) and a.ty.kind in ("atom", "oatom") and a.z.sort() == self.S.Atom)) \
+                and not isinstance(a, (VList, VTuple)) and not isinstance(b, (VList, VTuple)):
             return self.registry.strcat(self, st, a, b, node)
         if isinstance(a, (VSet, VDict)) and isinstance(op, (ast.Sub, ast.BitAnd, ast.BitOr)):
             aa = self.set_of(a, st, node)
